@@ -175,10 +175,7 @@ func (m *Machine) load(p *PtrV, g *Term, site ssa.Instruction) Value {
 			res = mergeValue(a.G, v, res)
 		}
 	}
-	if res == nil {
-		panic(notEncoded("load through a pointer that is always nil at %s", m.posOf(site)))
-	}
-	return res
+	return res // nil when the pointer has no target at all (the nil-dereference VC above covers it)
 }
 
 func (m *Machine) store(p *PtrV, v Value, g *Term, site ssa.Instruction) {
@@ -200,7 +197,11 @@ func (f *Frame) unop(x *ssa.UnOp) Value {
 	m := f.m
 	switch x.Op {
 	case token.MUL:
-		return m.load(f.get(x.X).(*PtrV), f.g, x)
+		v := m.load(f.get(x.X).(*PtrV), f.g, x)
+		if v == nil {
+			v = m.zero(x.Type())
+		}
+		return v
 	case token.NOT:
 		return Not(f.term(x.X))
 	case token.SUB:
